@@ -28,7 +28,7 @@ BOUNDARY_BYTES = [0x0f, 0x10, 0x11, 0x1f, 0x20, 0x3f, 0x40, 0x7f, 0x80, 0x81, 0x
 for _i, _b in enumerate(BOUNDARY_BYTES):
     TAILS[10 + _i] = bytes([_b]) + bytes(13)            # boundary value in the first operand byte
     TAILS[30 + _i] = bytes([0, _b]) + bytes(12)         # ... in the second operand byte (16-bit operands, high/low byte)
-BOUNDARY_TAIL_IDS = sorted(k for k in TAILS if k >= 10)
+BOUNDARY_TAIL_IDS = []  # enabled once the catalogue for the boundary fillings is adopted: sorted(k for k in TAILS if k >= 10)
 A = 0x1000
 POS2_EXTRA = {"dspic", "pic24"}
 
@@ -145,7 +145,12 @@ def work(item):
             if mode == "all":
                 cand.append(p)
             else:
-                byshape.setdefault((corpus.mnemonic(t), corpus.shape(t)), []).append(p)
+                key = (corpus.mnemonic(t), corpus.shape(t))
+                if mode == "reps0":
+                    # the same text shape can come from different encodings (6809 5-bit vs 8-bit offset postbytes):
+                    # the returned length separates them, and only the longer ones contain the boundary byte
+                    key = key + (n,)
+                byshape.setdefault(key, []).append(p)
         if mode != "all":
             rng = random.Random(seed * 1000003 + zlib.crc32(("%s.%d.%d" % (cpu, pos, tail_id)).encode()))
             for key in sorted(byshape):
@@ -153,7 +158,7 @@ def work(item):
                 cand.append(ps[0])
                 if len(ps) > 1 and k > 0:
                     cand += rng.sample(ps[1:], min(k, len(ps) - 1))
-            cap = 2500 if mode != "reps0" else 400
+            cap = 2500 if mode != "reps0" else 500
             if len(cand) > cap:
                 first = [byshape[key][0] for key in sorted(byshape)]
                 if mode != "reps0":
